@@ -23,7 +23,27 @@ A_, B_, C_, UA, UB = 97, 98, 99, 65, 66
 #   cset: ('c', cp) ('r', lo, hi) ('any',) ('o', A, B) ('n', A, B) ('~', A) ('-', A, B) ('i', A) ('j', A)
 
 
+def cs_bin(c):
+    """the n-ary char-set forms in terms of the binary ones of the model's syntax: ('O', (A, B, ...)) = (or A B ...) printed flat,
+    ('s', (cp, ...)) = ("...") the string-list form (string->char-set: one adjoin per character, in order),
+    ('R', ((lo, hi), ...)) = (/ lo hi lo hi ...) (a union of ucs-range->char-set)"""
+    t = c[0]
+    if t == 'O':
+        xs = list(c[1])
+    elif t == 's':
+        xs = [('c', cp) for cp in c[1]]
+    elif t == 'R':
+        xs = [('r', lo, hi) for lo, hi in c[1]]
+    else:
+        return c
+    out = xs[0]
+    for x in xs[1:]:
+        out = ('o', out, x)
+    return out
+
+
 def cs_proto(c):
+    c = cs_bin(c)
     t = c[0]
     if t == 'c':
         return "c %x" % c[1]
@@ -40,6 +60,8 @@ def cs_proto(c):
 
 def proto(r):
     t = r[0]
+    if t == 'pcre':             # ('pcre', text, sre): the PCRE string text, whose meaning is the SRE sre
+        return proto(r[2])
     if t == 'eps':
         return "E"
     if t == 'fail':
@@ -121,6 +143,12 @@ def cs_scm(c):
         return "(/ %s %s)" % (ch_scm(c[1]), ch_scm(c[2]))
     if t == 'any':
         return "any"
+    if t == 'O':
+        return "(or%s)" % "".join(" " + cs_scm(x) for x in c[1])
+    if t == 's':
+        return "(%s)" % str_scm(c[1])
+    if t == 'R':
+        return "(/%s)" % "".join(" %s %s" % (ch_scm(lo), ch_scm(hi)) for lo, hi in c[1])
     if t in ('o', 'n', '-'):
         return "(%s %s %s)" % ({'o': 'or', 'n': 'and', '-': '-'}[t], cs_scm(c[1]), cs_scm(c[2]))
     if t == '~':
@@ -138,6 +166,8 @@ def str_scm(cps):
 
 def scm(r):
     t = r[0]
+    if t == 'pcre':             # harness/c20_driver.scm compiles this form with pcre->regexp
+        return '(pcre "%s")' % r[1]
     if t == 'eps':
         return "(:)"
     if t == 'fail':
@@ -197,9 +227,13 @@ def walk(r):
         yield from walk(r[1])
     elif r[0] == 'rep':
         yield from walk(r[5])
+    elif r[0] == 'pcre':
+        yield from walk(r[2])
 
 
 def depth(r):
+    if r[0] == 'pcre':
+        return depth(r[2])
     if r[0] in ('seq', 'or'):
         return 1 + max([depth(a) for a in r[1:]] or [0])
     if r[0] in ('star', 'opt'):
@@ -213,6 +247,8 @@ def depth(r):
 
 def klass(r):
     """input class used in violation signatures (first that applies)"""
+    if r[0] == 'pcre':
+        return "pcre-syntax:" + klass(r[2])
     nodes = list(walk(r))
     if any((n[0] in ('star', 'opt') and not n[1]) or (n[0] == 'rep' and not n[2]) for n in nodes):
         return "non-greedy"
@@ -224,9 +260,17 @@ def klass(r):
         return "case-folding"
     if any(n[0] in ('anc', 'word') for n in nodes):
         return "anchor"
+    if any(n[0] == 'chr' and cs_wide(n[1]) for n in nodes):
+        return "char-class"           # a class of four or more operands (the streams over multi-node iset trees)
     if any(n[0] in ('sub', 'named', 'nocap') for n in nodes):
         return "submatch"
     return "core"
+
+
+def cs_wide(c):
+    if c[0] in ('O', 's', 'R'):
+        return len(c[1]) >= 4 or (c[0] == 'O' and any(cs_wide(x) for x in c[1]))
+    return any(cs_wide(x) for x in c[1:] if isinstance(x, tuple))
 
 
 def cps_of(r):
@@ -234,6 +278,7 @@ def cps_of(r):
     out = set()
 
     def cs(c):
+        c = cs_bin(c)
         if c[0] == 'c':
             out.add(c[1])
         elif c[0] == 'r':
@@ -390,6 +435,7 @@ def cs_eval(c, ci, x, mode):
     """is code point x in char set c under case flag ci?  mode = the reading of set algebra (~ - and) evaluated while w/nocase is in force:
     0 fold the operands, then operate (chibi; the model's cs_in); 1 operate on the case-sensitive operands, then fold the result
     (SRFI 115: "character sets match if any character they contain matches case-insensitively"); 2 fold the operands, operate, fold again"""
+    c = cs_bin(c)
     t = c[0]
     if t == 'c':
         return x == c[1] or (ci and c[1] in case_rel(x))
@@ -428,8 +474,10 @@ def tame_cs(c, ci, subj=None):
         return ('i', tame_cs(c[1], True, subj))
     if t == 'j':
         return ('j', tame_cs(c[1], False, subj))
-    if t in ('c', 'r', 'any'):
+    if t in ('c', 'r', 'any', 's', 'R'):
         return c
+    if t == 'O':
+        return ('O', tuple(tame_cs(x, ci, subj) for x in c[1]))
     if t in ('~', 'n', '-') and ci and subj is not None and \
             all(cs_eval(c, True, x, 0) == cs_eval(c, True, x, 1) == cs_eval(c, True, x, 2) for x in subj):
         return c
@@ -477,6 +525,248 @@ def rand_strings(rng, alpha, n, maxlen):
         ln = rng.choice([0, 1, 2, 3, 3, 4, 5, 6, 8, maxlen])
         out.append(tuple(rng.choice(alpha) for _ in range(ln)))
     return out
+
+
+# ------------------------------------------------------------------------------------------------
+# character classes whose iset representation is a TREE of several nodes (lib/chibi/iset/constructors.scm: members more than
+# bits-thresh = 128 apart get their own node, nearer ones are merged into a bitmap node to the left or to the right)
+
+CLUSTERS = [(0x20, 0x7e), (0xa0, 0x2ff), (0x370, 0x4ff), (0x5d0, 0x6ff), (0x900, 0xaff), (0x3040, 0x30ff), (0x4e00, 0x51ff),
+            (0xac00, 0xaeff), (0xe000, 0xe2ff), (0x10400, 0x106ff), (0x1f300, 0x1f6ff), (0x20000, 0x203ff)]
+NEAR = [1, 2, 3, 17, 60, 90, 100, 110, 120, 125, 126, 127, 127]       # steps that merge into the neighbouring node
+EDGE = [126, 127, 128, 129, 130, 140, 200, 255, 256, 257, 300]               # steps around the threshold and beyond
+
+
+def valid_cp(c):
+    return 0x20 <= c <= 0x10ffff and not (0xd800 <= c <= 0xdfff)
+
+
+def tree_members(rng, clusters=None):
+    """an insertion-ordered list of distinct code points: far-apart anchors (separate nodes; the order of arrival shapes the tree:
+    a left child with a right child, a right child with a left child, ...), then walks from one member towards and past another with
+    steps below the threshold (every step merges into the node it comes from, whose range then creeps over the ranges held deeper in
+    the tree), then near neighbours of existing members; finally kept in this order or sorted / reversed / interleaved"""
+    pts = []
+    for lo, hi in rng.sample(clusters or CLUSTERS, rng.choice([1, 1, 1, 2, 2, 3])):
+        # anchors: at least bits-thresh apart (separate nodes); their order of arrival decides the shape of the tree -- outside-in gives
+        # a zig-zag spine (a left child with a right child with a left child ...), ascending / descending a one-sided spine
+        anchors = [rng.randrange(lo, hi + 1)]
+        for _ in range(rng.choice([1, 2, 2, 3, 4])):
+            anchors.append(anchors[-1] + rng.choice([128, 129, 130, 150, 200, 256, 300, 400]))
+        arr = rng.choice(['random', 'high-low', 'high-low', 'low-high', 'low-high', 'asc', 'desc'])
+        if arr == 'random':
+            rng.shuffle(anchors)
+        elif arr == 'desc':
+            anchors.reverse()
+        elif arr in ('high-low', 'low-high'):
+            q, anchors = anchors, []
+            while q:
+                anchors.append(q.pop() if (len(anchors) % 2 == 0) == (arr == 'high-low') else q.pop(0))
+        mine = list(anchors)
+        for _ in range(rng.choice([1, 1, 2, 3])):
+            a = anchors[0] if rng.random() < 0.6 else rng.choice(mine)
+            b = rng.choice(anchors[1:])
+            if a == b:
+                b = a + rng.choice([-1, 1]) * rng.choice([130, 260, 400])
+            d = 1 if b > a else -1
+            cur, steps = a, 0
+            while steps < 14:
+                cur += d * rng.choice(NEAR if rng.random() < 0.93 else EDGE)
+                steps += 1
+                mine.append(cur)
+                if (cur - b) * d > 0:           # one step past the target
+                    break
+        for _ in range(rng.choice([0, 1, 2, 3])):
+            mine.append(rng.choice(mine) + rng.choice([-1, 1]) * rng.choice([1, 1, 2, 3, 10] + EDGE))
+        pts.extend(mine)
+    pts = [c for c in dict.fromkeys(pts) if valid_cp(c)] or [0x3bb]
+    if len(pts) > 28:
+        pts = pts[:28]
+    order = rng.choice(['kept', 'kept', 'kept', 'kept', 'kept', 'random', 'asc', 'desc', 'outside-in', 'inside-out'])
+    if order == 'random':
+        rng.shuffle(pts)
+    elif order in ('asc', 'desc'):
+        pts.sort(reverse=order == 'desc')
+    elif order in ('outside-in', 'inside-out'):
+        q = sorted(pts)
+        pts = []
+        while q:
+            pts.append(q.pop(0))
+            if q:
+                pts.append(q.pop())
+        if order == 'inside-out':
+            pts.reverse()
+    return pts
+
+
+def tree_cset(rng, pts, chars_only=False):
+    """one of the spellings of the class with the members pts, inserted in this order"""
+    k = rng.random() * (0.55 if chars_only else 1.0)
+    if k < 0.3:
+        return ('O', tuple(('c', c) for c in pts))
+    if k < 0.55:
+        return ('s', tuple(pts))
+    if k < 0.8:                                  # some members widened to ranges (nodes without a bitmap, ranges that bridge two nodes)
+        xs = []
+        for c in pts:
+            w = rng.choice([0, 0, 0, 1, 2, 5, 40, 127, 128, 200])
+            xs.append(('r', c, c + w) if w and valid_cp(c + w) and rng.random() < 0.4 else ('c', c))
+        return ('O', tuple(xs))
+    if k < 0.9:
+        return ('R', tuple((c, c + w) if valid_cp(c + w) else (c, c) for c in pts for w in [rng.choice([0, 0, 1, 3, 30, 130])]))
+    h = max(1, len(pts) // 2)                    # a union of two string classes: iset-union adjoins whole nodes of the second tree
+    return ('O', (('s', tuple(pts[:h])), ('s', tuple(pts[h:] or pts[:1]))))
+
+
+def cs_points(c, out):
+    c = cs_bin(c)
+    if c[0] == 'c':
+        out.add(c[1])
+    elif c[0] == 'r':
+        out.update((c[1], c[2]))
+    elif c[0] in ('o', 'n', '-'):
+        cs_points(c[1], out); cs_points(c[2], out)
+    elif c[0] in ('~', 'i', 'j'):
+        cs_points(c[1], out)
+    return out
+
+
+def tree_case(rng, clusters=None, nocase=False):
+    """(SRE, subjects): a tree-shaped class, possibly combined with a second one by the set operations of the SRE syntax, and as
+    subjects one-character strings for EVERY member and the neighbours (+-1, +-2) of every member and range end"""
+    pts = tree_members(rng, clusters)
+    if nocase:
+        pts = [c for c in pts if in_universe(c)] or [0x3bb]
+    cs = tree_cset(rng, pts, chars_only=nocase)
+    k = rng.random()
+    if k < 0.45 or nocase:
+        pass
+    else:
+        # the second operand shares members and neighbours with the first
+        other = [c + rng.choice([0, 0, 0, 1, -1, 2, 127, -128]) for c in rng.sample(pts, max(1, len(pts) // 2))]
+        other += tree_members(rng, clusters)[:6]
+        other = [c for c in dict.fromkeys(other) if valid_cp(c)] or pts[:1]
+        cs2 = tree_cset(rng, other)
+        if k < 0.6:
+            cs = ('-', cs, cs2)
+        elif k < 0.75:
+            cs = ('n', cs, cs2)
+        elif k < 0.85:
+            cs = ('o', cs, cs2)
+        elif k < 0.93:
+            cs = ('~', cs)
+        elif max(pts) - min(pts) > 5000:
+            cs = ('~', cs)
+        else:
+            cs = ('-', ('r', min(pts) - 3 if min(pts) > 0x23 else min(pts), max(pts) + 3 if valid_cp(max(pts) + 3) else max(pts)), cs)
+    if nocase:
+        cs = ('i', cs)
+    mem = sorted(cs_points(cs, set()))
+    cand = list(mem)
+    for c in mem:
+        cand.extend(x for x in (c - 1, c + 1, c - 2, c + 2) if valid_cp(x))
+    if nocase:
+        cand = [c for c in cand if in_universe(c)]
+        for c in list(cand):
+            cand.extend(case_rel(c))
+    cand = list(dict.fromkeys(cand))
+    if len(cand) > 130:
+        cand = cand[:len(mem)] + rng.sample(cand[len(mem):], max(0, 130 - len(mem)))
+    r = ('chr', cs)
+    w = rng.random()
+    if w < 0.7:
+        strs = [(c,) for c in cand]
+    elif w < 0.85:                               # search / submatch spans over runs of members and non-members
+        r = ('plus', ('sub', r))
+        strs = [(c,) for c in cand[:60]] + [tuple(rng.choice(cand) for _ in range(rng.choice([2, 3, 4, 6]))) for _ in range(30)]
+    else:
+        r = ('seq', ('sub', r), ('opt', True, r))
+        strs = [(c,) for c in cand[:60]] + [tuple(rng.choice(cand) for _ in range(rng.choice([2, 2, 3]))) for _ in range(30)]
+    return r, list(dict.fromkeys(strs))
+
+
+UNIVERSE = [(0x20, 0x7e), (0xc0, 0xfe), (0x391, 0x3a9), (0x3b1, 0x3c9), (0x400, 0x45f), (0x10400, 0x1044f), (0x4e00, 0x51ff)]
+
+
+def in_universe(c):
+    """code points on which the model's fold / chibi's upcase-downcase closure are known to induce the same relation (Chars.v)"""
+    return any(lo <= c <= hi for lo, hi in UNIVERSE) and c not in (0xd7, 0xf7, 0xdf, 0xff, 0x3a2, 0x3c2, 0x3a2 + 32)
+
+
+
+# ------------------------------------------------------------------------------------------------
+# the PCRE string front end (lib/chibi/regexp/pcre.scm, pcre->regexp) -- an extension beyond the property text, which speaks about SREs.
+# No parser here: a small term tree is generated and printed BOTH as PCRE text (standard precedence: a postfix operator binds to the single
+# preceding character, class, dot or group, never to a run of literals) and as the SRE it denotes.
+
+def pcre_atom(rng, d):
+    """-> (text, sre, single): single = a postfix operator may follow directly"""
+    k = rng.random()
+    if k < 0.45 or d == 0:
+        run = tuple(rng.choice([A_, B_, C_]) for _ in range(rng.choice([1, 2, 2, 3])))
+        return "".join(chr(c) for c in run), run, True
+    if k < 0.52:
+        return ".", ('chr', ('~', ('c', NL))), True
+    if k < 0.68:
+        form = rng.choice(["[ab]", "[a-c]", "[^a]", "[^ab]", "[bc]"])
+        cs = {"[ab]": ('O', (('c', A_), ('c', B_))), "[bc]": ('O', (('c', B_), ('c', C_))), "[a-c]": ('r', A_, C_),
+              "[^a]": ('~', ('c', A_)), "[^ab]": ('~', ('O', (('c', A_), ('c', B_))))}[form]
+        return form, ('chr', cs), True
+    txt, r = pcre_alt(rng, d - 1)
+    if rng.random() < 0.55:
+        return "(" + txt + ")", ('sub', r), True
+    return "(?:" + txt + ")", r, True
+
+
+def pcre_term(rng, d):
+    """-> (text, list of SRE elements)"""
+    txt, r, _ = pcre_atom(rng, d)
+    k = rng.random()
+    if k < 0.4:
+        op = None
+    elif k < 0.75:
+        m = rng.choice([0, 1, 1, 2, 2, 3])
+        n = m + rng.choice([0, 1, 2])
+        op = rng.choice([("{%d}" % m, lambda x: ('rep', '=', True, m, m, x)), ("{%d,}" % m, lambda x: ('rep', '>=', True, m, None, x)),
+                         ("{%d,%d}" % (m, n), lambda x: ('rep', '**', True, m, n, x))])
+    else:
+        op = rng.choice([("*", lambda x: ('star', True, x)), ("+", lambda x: ('plus', x)), ("?", lambda x: ('opt', True, x))])
+    if isinstance(r, tuple) and r and isinstance(r[0], int):          # a run of literals: the operator takes the LAST character only
+        if op is None:
+            return txt, [('str', r)]
+        head = [('str', r[:-1])] if len(r) > 1 else []
+        return txt + op[0], head + [op[1](('chr', ('c', r[-1])))]
+    if op is None:
+        return txt, [r]
+    return txt + op[0], [op[1](r)]
+
+
+def pcre_seq(rng, d):
+    txt, elems = "", []
+    for _ in range(rng.choice([1, 2, 2, 3])):
+        t, e = pcre_term(rng, d)
+        # two adjacent literal runs would read as one run: only the printed text matters, and the SRE is the same sequence either way
+        txt += t
+        elems += e
+    return txt, (elems[0] if len(elems) == 1 else ('seq',) + tuple(elems))
+
+
+def pcre_alt(rng, d):
+    parts = [pcre_seq(rng, d) for _ in range(rng.choice([1, 1, 1, 2, 3]))]
+    if len(parts) == 1:
+        return parts[0]
+    return "|".join(t for t, _ in parts), ('or',) + tuple(r for _, r in parts)
+
+
+def pcre_case(rng):
+    txt, r = pcre_alt(rng, rng.choice([0, 1, 1, 2]))
+    k = rng.random()
+    if k < 0.12 and r[0] != 'or':
+        txt, r = "^" + txt, ('seq', ('anc', 'bos'), r)
+    elif k < 0.24 and r[0] != 'or':
+        txt, r = txt + "$", ('seq', r, ('anc', 'eos'))
+    return ('pcre', txt, r)
+
 
 
 # ------------------------------------------------------------------------------------------------
@@ -529,6 +819,12 @@ def run_impl(d, cases, jobs=4, timeout=900, ranged=False):
 def replay_cmd(r, s, api):
     if api.endswith("/start-end"):
         return "as %s on the substring; see input.called_with for the original string and start/end" % replay_cmd(r, s, api[:-10])
+    if r[0] == 'pcre':
+        return ("printf '%%s' '(import (scheme base) (scheme write) (chibi regexp) (chibi regexp pcre)) (let ((m (%s (pcre->regexp \"%s\") %s))) "
+                "(write (and m (let lp ((i 0)) (if (> i (regexp-match-count m)) (quote ()) (cons (cons (regexp-match-submatch-start m i) "
+                "(regexp-match-submatch-end m i)) (lp (+ i 1)))))))) (newline)' | "
+                "LD_LIBRARY_PATH=$D CHIBI_MODULE_PATH=$D/lib $D/chibi-scheme /dev/stdin   # D = scratch build of the tree under test"
+                % (api, r[1], str_scm(s)))
     return ("printf '%%s' '(import (scheme base) (scheme write) (chibi regexp)) (let ((m (%s (quote %s) %s))) "
             "(write (and m (let lp ((i 0)) (if (> i (regexp-match-count m)) (quote ()) (cons (cons (regexp-match-submatch-start m i) "
             "(regexp-match-submatch-end m i)) (lp (+ i 1)))))))) (newline)' | "
@@ -592,6 +888,8 @@ def compare(ctx, exe, d, cases, label, sample=True, ranged=False):
             ctx.violation("regexp:crash-or-hang:" + cls, input=dict(sre=scm(r), strings=[str_scm(s) for s in strs]), observed=i,
                           expected="a result for every subject", replay=replay_cmd(r, strs[0] if strs else (), "regexp-search"))
             continue
+        if i.startswith("ERR") and r[0] == 'pcre' and ("repeat_empty_pattern" in i or "duplicate_repetition" in i):
+            continue            # pcre->sre refuses (x*)*, (x?)+ ... by design (sre-empty? / sre-repeater?, pcre.scm:190-208): not compared
         if i.startswith("ERR"):
             ctx.count(1, key=("compile", r), nontrivial=True)
             ctx.violation("regexp:compile-error:" + cls, input=dict(sre=scm(r)), observed=i,
@@ -988,10 +1286,13 @@ def engine_alphabet(r, strs):
         base.update(s)
 
     def cs(c):
+        c = cs_bin(c)
         if c[0] == 'c':
             base.add(c[1])
         elif c[0] == 'r':
             base.update(x for x in (c[1] - 1, c[1], c[1] + 1, c[2] - 1, c[2], c[2] + 1) if x > 0)
+            if c[2] - c[1] <= 40:
+                base.update(range(c[1], c[2] + 1))
         elif c[0] in ('o', 'n', '-'):
             cs(c[1]); cs(c[2])
         elif c[0] in ('~', 'i', 'j'):
@@ -1006,7 +1307,7 @@ def engine_alphabet(r, strs):
         out |= case_rel(c)
     out |= {0x7a, 0x5a, 0x30, NL, 0x4e2d}
     out = {c for c in out if not (0xd800 <= c <= 0xdfff)}
-    return sorted(out)[:64]
+    return sorted(out)[:200]
 
 
 def canon_graph(txt):
@@ -1017,7 +1318,7 @@ def canon_graph(txt):
     st = {}
     for f in body.split():
         i, kind, m, rule, n1, n2 = f.split(":")
-        st[i] = (kind, m, rule, n1, n2)
+        st[i] = (kind.partition("/")[0], m, rule, n1, n2)
     num, order, stack = {}, [], [start]
     while stack:
         q = stack.pop()
@@ -1033,6 +1334,18 @@ def canon_graph(txt):
         rows.append("%s:%s:%s:%s:%s" % (kind, m, rule, num.get(n1, "x"), num.get(n2, "x")))
     ng = "_" if ngi == "_" else ",".join(sorted(ngi.split(","), key=int))
     return "%s %s | %s" % (nsave, ng, " ".join(rows)), num
+
+
+def graph_contents(txt):
+    """the char-set states of a dumped graph whose whole content the driver listed: [(0/1 string over the alphabet, size, members or None)]"""
+    out = []
+    for f in txt.partition("|")[2].split():
+        kind = f.split(":")[1]
+        if kind.startswith("C") and "/" in kind and not kind.endswith("/!"):
+            bits, _, rest = kind[1:].partition("/")
+            fs = rest.split(".")
+            out.append((bits, int(fs[0]), [int(x, 16) for x in fs[1:]] if len(fs) > 1 or fs[0] == "0" else None))
+    return out
 
 
 def canon_trace(txt, num):
@@ -1090,8 +1403,10 @@ def engine_stage(ctx, exe, d, cases, per_sre, label="engine"):
             seen.add(r)
             uniq.append((r, strs))
     glines, mreq, tlines, treq, tmeta = [], [], [], [], []
+    alphas, extra_probe, stray_cases = {}, {}, []
     for k, (r, strs) in enumerate(uniq):
         al = engine_alphabet(r, strs)
+        alphas[k] = al
         glines.append("(%d graph %s (%s))" % (k, scm(r), " ".join(str(c) for c in al)))
         mreq.append("Y %s | %s" % (xproto(r), sfield(al)))
         for s in (rng.sample(strs, per_sre) if len(strs) > per_sre else strs):
@@ -1125,6 +1440,23 @@ def engine_stage(ctx, exe, d, cases, per_sre, label="engine"):
         nums[k] = (nm, ni)
         if cm != ci_:
             bad.setdefault(k, "state graph differs: code %s ; model %s" % (ci_, cm))
+        else:
+            # the states agree on the alphabet; now the WHOLE content of every small char set as the iset iteration lists it (char-set-size /
+            # char-set->list: the path char-set-ci walks): a listed member outside the alphabet is put to the SPEC as a subject of its own,
+            # and the listing must have exactly the members the membership test has
+            al = alphas[k]
+            for bits, size, mem in graph_contents(i[2:]):
+                if mem is None:
+                    continue
+                inside = {c for c, b in zip(al, bits) if b == "1"}
+                stray = [c for c in mem if c not in al]
+                if len(mem) != size or len(set(mem)) != size or not inside <= set(mem) or any(c in al and c not in inside for c in mem):
+                    bad.setdefault(k, "char-set->list / char-set-size / char-set-contains? disagree with each other: size %d, listed %s, members on the alphabet %s"
+                                   % (size, ["%x" % c for c in mem[:40]], ["%x" % c for c in sorted(inside)[:40]]))
+                    extra_probe.setdefault(k, []).extend((c,) for c in (set(mem) ^ inside) & set(al))
+                if stray:
+                    extra_probe.setdefault(k, []).extend((c,) for c in stray[:20])
+                    stray_cases.append((k, stray[:20]))
     if internal_missing:
         ctx.broken("inner-correspondence:engine", "the state accessors / regexp-advance! / posse-for-each of (chibi regexp) could not be reached through the module environment")
     # the code walks searchers1 in hash-table order and the merge of match vectors can depend on it: replay the observed order
@@ -1160,11 +1492,16 @@ def engine_stage(ctx, exe, d, cases, per_sre, label="engine"):
             bad.setdefault(k, "%s on %s: simulation differs at step %d: code %s ; model %s ; results %s / %s"
                            % ("regexp-search" if search else "regexp-matches", str_scm(s), step,
                               si[step] if step < len(si) else "(ended)", sm[step] if step < len(sm) else "(ended)", ri, rm))
+    # members the iteration lists outside the compared alphabet: the SPEC decides on each as a one-character subject (sound for every SRE:
+    # a wrongly listed member is wrongly matched or not; either way compare() judges by the verified matcher)
+    if stray_cases:
+        sc = [(uniq[k][0], [(c,) for c in cs_]) for k, cs_ in stray_cases[:400]]
+        compare(ctx, exe, d, sc, "engine-listed-members", sample=False)
     # judge every differing SRE by the SPEC
     for k in sorted(bad)[:40]:
         r, strs = uniq[k]
         letters = sorted({c for s in strs for c in s} | cps_of(r))[:3] or [A_]
-        probe = list(dict.fromkeys(list(strs) + all_strings(letters, 3)))
+        probe = list(dict.fromkeys(list(strs) + extra_probe.get(k, []) + all_strings(letters, 3)))
         before = len(ctx.violations)
         compare(ctx, exe, d, [(r, probe)], "engine-judge", sample=False)
         if len(ctx.violations) == before:
@@ -1219,10 +1556,10 @@ def run(ctx):
 
     import time
 
-    def go(cases, label):
+    def go(cases, label, track=True):
         t0 = time.time()
         cases = [(tame(r, False, tame_subj(r, strs)), strs) for r, strs in cases]
-        for r, strs in cases:
+        for r, strs in cases if track else []:
             used.update(cps_of(r))
             for s in strs:
                 used.update(s)
@@ -1286,6 +1623,27 @@ def run(ctx):
             r = ('nocase', r)
         cases.append((r, rand_strings(rng, alpha + [alpha[0]], 8 if T else 6, 8)))
     go(cases, "unicode")
+    # -------------------------------------------------------------- character classes stored as a tree of iset nodes
+    # (no case flag, no word anchors: the characters are opaque code points for the model, so they may come from any block and are
+    # not handed to the character stage; the w/nocase share stays inside the modelled universe and is handed to it)
+    cases = [(('chr', ('O', tuple(('c', c) for c in (0x3e8, 0x1f4, 0x2bc, 0x3b6, 0x33e, 0x2c6, 0x2b2)))), [(c,) for c in range(0x2b0, 0x2c8)]),
+             (('chr', ('s', (0x100, 0x300, 0x200, 0x14a, 0x1c0, 0x210))), [(c,) for c in range(0x1fe, 0x212)])]
+    cases += [tree_case(rng) for _ in range(1000 if T else 120)]
+    go(cases, "charclass-tree", track=False)
+    go([tree_case(rng, UNIVERSE, nocase=True) for _ in range(300 if T else 30)], "charclass-tree-nocase")
+    # -------------------------------------------------------------- the PCRE string syntax (extension beyond the property text)
+    pc = [('pcre', t, r) for t, r in [
+        ("ab{2}", ('seq', ('str', (A_,)), ('rep', '=', True, 2, 2, ('chr', ('c', B_))))),
+        ("ab{1,2}c", ('seq', ('str', (A_,)), ('rep', '**', True, 1, 2, ('chr', ('c', B_))), ('str', (C_,)))),
+        ("c(ab{2,})", ('seq', ('str', (C_,)), ('sub', ('seq', ('str', (A_,)), ('rep', '>=', True, 2, None, ('chr', ('c', B_))))))),
+        ("ab*", ('seq', ('str', (A_,)), ('star', True, ('chr', ('c', B_))))), ("ab+c", ('seq', ('str', (A_,)), ('plus', ('chr', ('c', B_))), ('str', (C_,)))),
+        ("abc?", ('seq', ('str', (A_, B_)), ('opt', True, ('chr', ('c', C_)))))]]
+    pc += [pcre_case(rng) for _ in range(800 if T else 50)]
+    strs_abc = all_strings([A_, B_, C_], 3)
+    t0 = time.time()
+    pcases = [(r, strs_abc + rand_strings(rng, [A_, B_, C_], 8, 7)) for r in dict.fromkeys(pc)]
+    compare(ctx, exe, d, pcases, "pcre-syntax")
+    ctx.note("stage pcre-syntax: %d PCRE strings, %d pairs, %.1fs" % (len(pcases), sum(len(x[1]) for x in pcases), time.time() - t0))
     # -------------------------------------------------------------- optional start / end arguments
     rcases = []
     for _ in range(3000 if T else 200):
